@@ -101,9 +101,11 @@ type fastCompare struct {
 	isString bool
 }
 
+// A quoted literal that contains a backslash is left to the general engine, which unescapes it
+// ('a\\b' is the three characters a\b there); the shortcut compares the raw text.
 var (
 	fastFieldOpNum = regexp.MustCompile(`^\s*([A-Za-z_][A-Za-z0-9_]*)\s*(>=|<=|!=|<>|==|=|>|<)\s*(-?\d+(?:\.\d+)?)\s*$`)
-	fastFieldOpStr = regexp.MustCompile(`^\s*([A-Za-z_][A-Za-z0-9_]*)\s*(>=|<=|!=|<>|==|=|>|<)\s*'([^']*)'\s*$`)
+	fastFieldOpStr = regexp.MustCompile(`^\s*([A-Za-z_][A-Za-z0-9_]*)\s*(>=|<=|!=|<>|==|=|>|<)\s*'([^'\\]*)'\s*$`)
 )
 
 // tryFastCompare returns a fast-path for trivial comparisons, or nil if the
